@@ -29,6 +29,7 @@ import (
 	"encoding/json"
 	"fmt"
 	"math"
+	"strconv"
 	"net"
 	"os"
 	"path/filepath"
@@ -670,6 +671,56 @@ func run(r *vf.Run, repo string) {
 	}
 	r.Count("subjects_exercised", len(used))
 	r.Floor("subjects exercised", len(used), readableCatalog+len(synth))
+
+	// ---- 1b. values placed relative to each subject's OWN declared bounds: the next representable number beyond a bound,
+	// a bound plus / minus 1e-12 .. 1e-6 (what a tolerance for rounding noise would let through), the neighbouring integers
+	for _, sub := range subs {
+		var c *characteristic.Characteristic
+		if p, _ := vf.Recover(func() { c = sub.New() }); p || c == nil {
+			continue
+		}
+		var rel []*hval
+		add := func(label string, x float64) {
+			t := strconv.FormatFloat(x, 'g', -1, 64)
+			rel = append(rel, &hval{Label: "json " + label + "=" + t, Kind: "number", V: x, JSON: t},
+				&hval{Label: "json \"" + label + "=" + t + "\"", Kind: "string", V: t, JSON: `"` + t + `"`})
+		}
+		for which, b := range map[string]interface{}{"max": c.MaxValue, "min": c.MinValue} {
+			var f float64
+			switch x := b.(type) {
+			case float64:
+				f = x
+			case int:
+				f = float64(x)
+			default:
+				continue
+			}
+			out, in := math.Inf(1), math.Inf(-1)
+			if which == "min" {
+				out, in = in, out
+			}
+			add(which+"+ulp-outwards", math.Nextafter(f, out))
+			add(which+"+ulp-inwards", math.Nextafter(f, in))
+			sgn := 1.0
+			if which == "min" {
+				sgn = -1
+			}
+			for _, d := range []float64{1e-12, 1e-10, 5e-10, 1e-9, 2e-9, 1e-7, 1e-6, 0.49, 0.5, 1} {
+				add(fmt.Sprintf("%s%+g", which, sgn*d), f+sgn*d)
+			}
+		}
+		if len(rel) == 0 {
+			continue
+		}
+		r.Count("subjects_probed_next_to_their_own_bounds", 1)
+		for _, v := range rel {
+			for _, m := range []string{"local", "remote", "nested-local"} {
+				runSequence(r, sub, []step{{m, v}})
+				r.Count("values_next_to_a_declared_bound", 1)
+			}
+		}
+	}
+	r.Floor("subjects probed next to their own bounds", int(r.Counter("subjects_probed_next_to_their_own_bounds")), 50)
 
 	// ---- 2. every ordered pair of values on the synthetic subjects (all of them in thorough, local+remote)
 	for _, sub := range synth {
